@@ -313,6 +313,53 @@ pub fn run(tier: Tier) -> i32 {
         }
     });
     st.merge(res);
+    // many connection ids: a few permutations, the complete table
+    {
+        let mut big = crate::universe::u_big(tier);
+        big.retain(|u| u.name.contains("big/conn-ids") && u.mapping.is_none());
+        for u in &big {
+            let (nr, nl) = (u.dict.nr, u.dict.nl);
+            let perms: Vec<(Vec<u16>, Vec<u16>)> = vec![
+                ((1..nl as u16).collect(), (1..nr as u16).collect()),
+                ((1..nl as u16).rev().collect(), (1..nr as u16).rev().collect()),
+                ((1..nl as u16).map(|i| if usize::from(i) + 1 < nl { i + 1 } else { 1 }).collect(), (1..nr as u16).map(|i| if i > 1 { i - 1 } else { (nr - 1) as u16 }).collect()),
+            ];
+            for (lm, rm) in perms {
+                st.states += 1;
+                st.transitions += 1;
+                st.count("many_id_dictionaries_mapped");
+                let Ok((d, _)) = u.build() else { continue };
+                let rd = u.dict.mapped(&lm, &rm);
+                let (l2, r2) = (lm.clone(), rm.clone());
+                match guard(move || d.map_connection_ids_from_iter(l2, r2)) {
+                    Ok(Ok(dm)) => {
+                        let mut bad = None;
+                        for r in 0..nr {
+                            for l in 0..nl {
+                                let got = dm.verif_conn_cost(r as u16, l as u16);
+                                if i64::from(got) != rd.conn(r as u16, l as u16) && bad.is_none() {
+                                    bad = Some((r, l, got, rd.conn(r as u16, l as u16)));
+                                }
+                            }
+                        }
+                        st.add("conn_pairs_compared", (nr * nl) as u64);
+                        if let Some((r, l, got, want)) = bad {
+                            st.violation(Finding {
+                                class: "conn-cost-not-permuted".into(),
+                                what: format!("{} mapped with a permutation of {} x {} ids: cost'({r},{l}) = {got}, expected {want}", u.name, nr, nl),
+                                replay: json!({"kind": "mapping", "dictionary": u.describe(), "lmap": lm, "rmap": rm}),
+                            });
+                        }
+                    }
+                    other => st.violation(Finding {
+                        class: "valid-op-rejected".into(),
+                        what: format!("valid mapping of {} rejected: {:?}", u.name, other.map(|r| r.map(|_| ()).map_err(|e| e.to_string()))),
+                        replay: json!({"kind": "mapping", "dictionary": u.describe()}),
+                    }),
+                }
+            }
+        }
+    }
     for f in &fams {
         malformed(f, &mut st, tier);
     }
@@ -329,6 +376,7 @@ pub fn run(tier: Tier) -> i32 {
             "mapping_iterators_valid",
             "mapping_iterators_malformed",
             "single_map_all_permutation_pairs",
+            "many_id_dictionaries_mapped",
         ],
     )
 }
